@@ -11,9 +11,11 @@ import (
 	"os"
 	"path/filepath"
 	"runtime/debug"
+	"runtime/metrics"
 	"sort"
 	"strings"
 	"sync"
+	"syscall"
 	"time"
 )
 
@@ -318,4 +320,33 @@ func IDs() []string {
 	}
 	sort.Strings(l)
 	return l
+}
+
+// ---- resource sentinel ----
+
+var allocSample = []metrics.Sample{{Name: "/gc/heap/allocs:bytes"}}
+
+func heapAllocs() uint64 {
+	metrics.Read(allocSample)
+	if allocSample[0].Value.Kind() == metrics.KindUint64 {
+		return allocSample[0].Value.Uint64()
+	}
+	return 0
+}
+
+func cpuTime() time.Duration {
+	var ru syscall.Rusage
+	if syscall.Getrusage(syscall.RUSAGE_SELF, &ru) != nil {
+		return 0
+	}
+	return time.Duration(ru.Utime.Nano() + ru.Stime.Nano())
+}
+
+// Measure runs f under the panic guard and reports process CPU time and heap bytes allocated during the call.
+func Measure(f func()) (panicked bool, val any, frame string, cpu time.Duration, alloc uint64) {
+	a0, c0 := heapAllocs(), cpuTime()
+	panicked, val, frame, _ = Guard(f)
+	cpu = cpuTime() - c0
+	alloc = heapAllocs() - a0
+	return
 }
